@@ -16,7 +16,9 @@ def _case(s, how):
 
 def _num(n):
     v = unlimbs(n['mag'])
-    t = {'dec': '%d', 'hexl': '0x%x', 'hexu': '0X%X'}[n['nb']] % v
+    # 'dec0': decimal with a leading zero, used only where it cannot be read as another number (GNU as reads 0NN as octal:
+    # below 8 the decimal and the octal reading agree)
+    t = {'dec': '%d', 'hexl': '0x%x', 'hexu': '0X%X', 'dec0': '0%d' if 0 < v < 8 else '%d'}[n['nb']] % v
     return ('-' if n['neg'] else '') + t
 
 
